@@ -4454,7 +4454,7 @@ Qed.
 (** SetCheckpoint with one failing call, on the repaired encodeToFile *)
 Theorem fault_atomic_checkpoint : forall g w m c k e,
   fixed g = true -> InvS g (mkst w (Some m)) ->
-  let p := op_prog g (Some m) (OCheckpoint c) in
+  let p := lift (set_checkpoint g m c) in
   let r := exec p w 0 None (Some (k, e)) in
   exists vpre vpost vk,
     recover g w = Some vpre /\ recover g (fst (ff p w)) = Some vpost
@@ -4466,10 +4466,54 @@ Proof.
   assert (Hhead : i_head i' = i_head (cv_info v)) by (subst i'; cbn; apply (agree_head g v m Hag)).
   destruct (fault_atomic_vol g w v i' (fun x => (set_info m i', x)) k e Hfx Hrec Hhead (fun x => eq_refl)) as [vk [H1 [H2 H3]]].
   exists v, (mkview i' (cv_chain v)), vk. split; [exact Hrec |]. split.
-  - subst p. cbn [op_prog]. unfold lift, set_checkpoint. rewrite ff_bind, ff_bind, ff_encode by (cbn; auto; left; reflexivity).
+  - subst p. unfold lift, set_checkpoint. rewrite ff_bind, ff_bind, ff_encode by (cbn; auto; left; reflexivity).
     cbn [ff fst]. apply recover_vol_rewrite; assumption.
   - split; [exact H1 |]. split; [exact H2 | exact H3].
 Qed.
+
+(** ** a snapshot / resize / set-checkpoint that does not return success leaves the memory as it was:
+    whatever happens inside — a refusal, any call failing ([fa]), and for any later crash point —
+    with the repairs /repo 0472ed5, 0c1a1af, a3198e0 ([fix_mem g = true]).  No invariant is needed:
+    the repaired functions assign to the Replica only after their last write. *)
+Definition mem_guarded (o : op) : Prop :=
+  match o with OSnap _ _ _ | OResize _ | OCheckpoint _ => True | _ => False end.
+
+Lemma exec_keepold : forall g m (p : prog (mem * res)) w cnt ca fa,
+  exec (keepold g m p) w cnt ca fa =
+  let '(w1, t, o) := exec p w cnt ca fa in (w1, t, map_outcome (keep_old g m) o).
+Proof. intros. unfold keepold. apply exec_bind_ret. Qed.
+
+Theorem failed_unchanged : forall g w m o cnt ca fa om r n,
+  fix_mem g = true -> mem_guarded o ->
+  out_of_run (exec (op_prog g (Some m) o) w cnt ca fa) = Done (om, r, n) -> r <> Ok -> om = Some m.
+Proof.
+  intros g w m o cnt ca fa om r n Hfm Hg Hout Hr.
+  assert (Hgen : forall p : prog (mem * res),
+            out_of_run (exec (lift (keepold g m p)) w cnt ca fa) = Done (om, r, n) -> om = Some m).
+  { intros p H. rewrite exec_lift, exec_keepold in H. destruct (exec p w cnt ca fa) as [[w1 t] o'].
+    unfold out_of_run in H. cbn [snd] in H. destruct o' as [[m' r'] | |]; cbn [map_outcome] in H; try discriminate.
+    unfold keep_old in H. rewrite Hfm in H. cbn [snd andb] in H.
+    destruct (negb (is_ok r')) eqn:E; cbn [fst snd] in H; inversion H; subst; [reflexivity |].
+    exfalso. apply Hr. destruct r; try discriminate; reflexivity. }
+  destruct o; try contradiction; cbn [op_prog] in Hout; eapply Hgen; exact Hout.
+Qed.
+
+(** ... and it was false before them ([fix_mem g = false], everything else as the code has it): a
+    SetCheckpoint / Resize whose open of volume.meta.tmp fails returns an error and leaves the new
+    checkpoint / size in memory; a Snapshot whose volume.meta cannot be written leaves a memory
+    whose Chain() fails *)
+Theorem failed_unchanged_refuted :
+  let g := mkcfg 8 true true true false true false in
+  let s := run_ops g (created g 16384 7) [OOpen; OSetMode (Some RW); OSnap 1 false 1] in
+  let mem_after o k := match s_mem s with
+                       | Some m => match out_of_run (exec (op_prog g (Some m) o) (s_fs s) 0 None (Some (k, ENOSPC))) with
+                                   | Done (Some m', r, _) => Some (r, i_checkpoint (m_info m'), i_size (m_info m'), mchain g m')
+                                   | _ => None end
+                       | None => None end in
+  mem_after (OCheckpoint (Some (Snap 1))) 0 = Some (Failed, Some (Snap 1), 16384%N, Some [Head 1; Snap 1])
+  /\ mem_after (OResize 32768) 2 = Some (Failed, None, 32768%N, Some [Head 1; Snap 1])
+  /\ mem_after (OSnap 2 false 2) 22 = Some (Failed, None, 16384%N, None).
+Proof. vm_compute. repeat split. Qed.
 
 (** ** with the three argument repairs in, every argument value is fine *)
 
